@@ -576,14 +576,19 @@ def confirm(th, atoms, z3decl, f):
 
 
 def shrink(h, exe, sid, th, hdr, atoms, z3decl, ops, sig, budget=60):
-    """greedy removal of operations while the same signature is reproduced."""
+    """greedy removal of operations while the same signature is reproduced; returns (ops, finding text of the small run)."""
+    last = [None]
+
     def fails(o):
-        rc, out = run_harness(h, seq_text("s", th, hdr, atoms, o), timeout=60)
+        rc, out = run_harness(h, seq_text("s", th, hdr, atoms, o), timeout=20)
         sq = split_log(out).get("s")
         if sq is None:
             return False
         r = process((h, exe, "s", th, hdr, atoms, z3decl, o, sq["lines"], sq["complete"]))
-        return any(f["sig"] == sig for f in r["findings"]) or any(("tie:" + t[0]) == sig for t in r["ties"])
+        hit = [f["what"] for f in r["findings"] if f["sig"] == sig] + [t[1] for t in r["ties"] if ("tie:" + t[0]) == sig]
+        if hit:
+            last[0] = hit[0]
+        return bool(hit)
     cur = list(ops)
     n = 0
     chunk = max(1, len(cur) // 4)
@@ -600,7 +605,7 @@ def shrink(h, exe, sid, th, hdr, atoms, z3decl, ops, sig, budget=60):
                 i += chunk
         if not progressed:
             chunk //= 2
-    return cur
+    return cur, last[0]
 
 
 def run(ctx):
@@ -696,8 +701,8 @@ def run(ctx):
             if ("tie", t[0], th) in reported:
                 continue
             reported.add(("tie", t[0], th))
-            small = shrink(h, exe, j, th, hdr, atoms, z3decl, ops, "tie:" + t[0]) if t[0] == "boundstack-correspondence" else ops
-            ctx.tie_broken(t[0], "%s history %s: %s" % (th, j, t[1]), dict(theory=th, hdr=hdr, atoms=atoms, ops=small))
+            small, what = shrink(h, exe, j, th, hdr, atoms, z3decl, ops, "tie:" + t[0]) if t[0] == "boundstack-correspondence" else (ops, None)
+            ctx.tie_broken(t[0], "%s history %s: %s" % (th, j, what or t[1]), dict(theory=th, hdr=hdr, atoms=atoms, ops=small))
         for f in r["findings"]:
             if f.get("tie"):
                 ctx.tie_broken(f["sig"], f["what"], dict(theory=th, hdr=hdr, atoms=atoms, ops=ops))
@@ -707,9 +712,10 @@ def run(ctx):
                 continue
             reported.add(f["sig"])
             second = confirm(th, atoms, z3decl, f)
-            small = shrink(h, exe, j, th, hdr, atoms, z3decl, ops, f["sig"])
+            small, what = shrink(h, exe, j, th, hdr, atoms, z3decl, ops, f["sig"])
             rc2, out2 = run_harness(h, seq_text("r", th, hdr, atoms, small), timeout=60)
-            ctx.violation(f["sig"], "%s solver: %s [second opinion: %s]" % (th, f["what"], second),
+            ctx.violation(f["sig"], "%s solver, history %s over the literals %s: %s [second opinion on the original history: %s]"
+                          % (th, " ".join(small), atoms, what or f["what"], second),
                           dict(theory=th, hdr=hdr, atoms=atoms, z3decl=z3decl, ops=small, original_ops=ops, second_opinion=second,
                                harness_input=seq_text("r", th, hdr, atoms, small), harness_log=out2.split("\n")[:200],
                                how="build/harness/h_tsolver < harness_input"))
